@@ -200,6 +200,13 @@ func c05Gen(rng *verifsim.RNG, idx int, tier string) *Plan {
 			q.Faults = append(q.Faults, Fault{Seam: "write", From: at - lat/2 - 600*nsMs, Count: 1, Lat: lat, Err: []string{"ENETDOWN", "ENOBUFS"}[rng.Intn(2)]})
 			q.Actions = append(q.Actions, rsAction(at-lat/2-550*nsMs, hostAddr(0)))
 			q.Class += "+failing-send-in-flight"
+		} else if rng.Bool(0.25) {
+			// ... or one caused by nothing but a transmission that fails (transient:
+			// no buffers, network down): the connection is replaced and the
+			// unsolicited RAs go on
+			q.Faults = append(q.Faults, Fault{Seam: "write", Key: []string{"mc", ""}[rng.Intn(2)], From: int64(rng.Dur(time.Second, time.Duration(q.Horizon*3/4))), Count: 1,
+				Err: []string{"ENETDOWN", "ENOBUFS", "EINVAL"}[rng.Intn(3)]})
+			q.Class += "+failing-send"
 		}
 		return q
 	}
